@@ -212,7 +212,7 @@ def shard(ctx):
                 ctx.case(["PROG", prog, k], uses, ["program"])
                 compare(ctx, ["PROG", prog, k], a, b, "program-argument")
             return test
-        core.run_hypothesis(ctx, factory, 250 if q else 1500)
+        core.run_hypothesis(ctx, factory, 250 if q else 4000)
     finally:
         sc.close()
 
